@@ -165,7 +165,7 @@ func runC01_10(c *core.Ctx) {
 	}
 	au := &flow.Auto{Start: s0}
 	au.Node = func(b *flow.Block, i int, n ast.Node, s int) int { return step(n, s) }
-	g := f.Graph()
+	g := f.InlinedGraph()
 	sol := g.Run(au)
 	record = true
 	for _, b := range g.Blocks {
